@@ -3,7 +3,7 @@ from trkgen import *
 import importlib
 
 ID = "C05"
-THEOREM_MODULES = ["SimVerif.Props.C05", "SimVerif.Props.C05b"]
+THEOREM_MODULES = ["SimVerif.Props.C05", "SimVerif.Props.C05b", "SimVerif.Props.C05c"]
 THEOREM_MODULE = "SimVerif.Props.C05"
 NONTRIVIAL_FLAGS = {"fallback", "multi-cand", "multi-query", "shards-interleaved", "jittered-commands", "compared-nonempty", "competition", "continuation", "compare-with-ids"}
 RULE = ("each random multi-object history is run on the real tracker with 1 shard (reference) and with 2..8 shards under seeded random delays of the store workers (similari_verif hook at every command begin, several seeds), "
@@ -14,9 +14,9 @@ TRUSTED_BASE = ["Lean 4.33 kernel", "axioms: propext, Quot.sound, Classical.choi
                 "models SimVerif/Model/Store.lean (sharded query), Model/Tracker.lean (the step does not mention the shard count) tied to the code by the differential runs",
                 "real OS scheduling is only sampled (seeded delays through the hook); the theorems are about the interleaving model at command granularity (every arrival order of the per-shard chunks)"]
 ASSUMPTIONS = ["inputs without exact weight ties (a difference is accepted only when the model found more than one optimal choice in that scene)"]
-PARTIAL = ["the combined statement `validChoice` on a permuted table (all conjuncts at once, with `bestOf` = DP beyond 5x5) is not restated as one theorem: proved are C05_valid_perm_partial (admissibility, gating), C05_best_perm and C05_optimal_transport (the optimum and the optimal assignments, over the enumeration `best`, for tables with distinct pairs); the DP `bestDP` is tied to `best` by the driver cross-check only"]
+PARTIAL = []
 LEVEL_TEXT = ("Lean 4 theorems: for every shard count n>0 the shards partition the store (concatenation in any order is a permutation); a distance query collects, for every n and every arrival order of the workers' chunks, a permutation of the sequential single-shard result (C10_schedule_independent); "
-              "admissibility, gating and one-to-one-ness of a choice depend on the distance table only as a multiset; the optimum of the assignment and the set of optimal assignments are invariant under permutation of a table with distinct pairs (C05_best_perm, C05_optimal_transport); the tracker step itself never reads the shard count. "
+              "admissibility, gating and one-to-one-ness of a choice depend on the distance table only as a multiset; the optimum of the assignment and the set of optimal assignments are invariant under permutation of a table with distinct pairs (C05_best_perm, C05_optimal_transport); the whole validity predicate of an association — admissibility, gating, one-to-one-ness and maximality, with the optimum certified for tables of every size — gives the same verdict on every permutation of a table with distinct pairs (C05_validChoice_perm, Props/C05c); the tracker step itself never reads the shard count. "
               "The real trackers are run with 1..8 shards under seeded worker delays and compared record by record (ids included for the simple trackers).")
 LEVEL_NOTE = "Trusted: Lean kernel; interleaving model at command granularity; real scheduling sampled, not enumerated, at tracker level (enumerated at store level in C10)."
 TECHNIQUE = "Lean 4 proof (permutation arguments) with differential correspondence check under hook-perturbed schedules"
